@@ -37,7 +37,7 @@ def in_sigma_g(c):
 
 
 def gclass(ctx, c):
-    key = ('g', c.v if isinstance(c.v, int) else c.v.get_id())
+    key = ('g-concrete', c.v) if isinstance(c.v, int) else ('g-ast', c.v.get_id())
     k = ctx.width_cache.get(key)
     if k:
         return k[0]
